@@ -118,6 +118,50 @@ pub fn run(ctx: &Ctx) -> Value {
     for y in [i32::MIN, -262_144, -262_143, -1, 0, 1900, 2023, 2024, 262_142, 262_143, i32::MAX] { for m in 1..=12u32 {
         tw.emit(ev("month_days", json!({"y": y, "m": m}), || json!(Month::from_u32(m).unwrap().num_days(y).map(|x| x as i64).unwrap_or(-1))));
     }}
+    // the same operations through DateTime<FixedOffset>: they must act on the WALL CLOCK (judged by DateTimeTz.tla). The lattice makes
+    // the local date differ from the UTC date on the 1st and on days 28..31, with offsets that have minutes and seconds
+    let mut tz = Tw::new(&ctx.out, "Trace_DateTimeTz", ctx.t(2_000, 15_000));
+    let mut n_tz = 0usize;
+    {
+        use chrono::{DateTime, FixedOffset, TimeZone};
+        let offs = [3600i32, -3600, 7200, 19_800, -16_200, 3630, -17_762, 86_399, -86_399, 1];
+        let mut walls: Vec<NaiveDateTime> = Vec::new();
+        for (y, m, d) in [(2021, 3, 1), (2020, 3, 31), (2020, 3, 1), (2024, 2, 29), (2023, 1, 31), (2021, 1, 29), (2000, 3, 1), (1900, 3, 1), (2024, 12, 31), (2025, 1, 1), (2023, 3, 2), (2024, 3, 1)] {
+            let date = NaiveDate::from_ymd_opt(y, m, d).unwrap();
+            for (hh, mm, ss) in [(0, 0, 0), (0, 30, 0), (1, 0, 0), (12, 34, 56), (23, 0, 0), (23, 59, 59)] { walls.push(date.and_hms_opt(hh, mm, ss).unwrap()); }
+        }
+        for _ in 0..ctx.t(20, 2_000) { walls.push(mk_ndt(rng.range(MIN_DAY + 800, MAX_DAY - 800), rng.range(0, 86_399) as u32, rng.range(0, 999_999_999) as u32)); }
+        for (i, w) in walls.iter().enumerate() { for &off in offs.iter() {
+            if ctx.quick() && (i + off.unsigned_abs() as usize) % 2 == 1 { continue; }
+            let fo = FixedOffset::east_opt(off).unwrap();
+            let z: DateTime<FixedOffset> = match fo.from_local_datetime(w).single() { Some(z) => z, None => continue };
+            let u = z.naive_utc();
+            for k in [0u32, 1, 2, 11, 12, 13, 25] {
+                tz.emit(ev("tzmonths", json!({"u": ndt(u), "off": off, "k": big(k as i128)}), || json!({"r": opt(z.checked_add_months(Months::new(k)), |q| ndt(q.naive_utc()))})));
+                tz.emit(ev("tzmonths", json!({"u": ndt(u), "off": off, "k": big(-(k as i128))}), || json!({"r": opt(z.checked_sub_months(Months::new(k)), |q| ndt(q.naive_utc()))})));
+                n_tz += 2;
+            }
+            for (f, v) in [("second", 0u32), ("second", 10), ("second", 59), ("minute", 0), ("minute", 59), ("hour", 0), ("hour", 23), ("day", 1), ("day", 28), ("day", 29), ("day", 31), ("month", 2), ("month", 12),
+                           ("ordinal", 1), ("ordinal", 60), ("ordinal", 366), ("day0", 0), ("month0", 0), ("ordinal0", 0), ("nanosecond", 5)] {
+                tz.emit(ev("tzwith", json!({"f": f, "u": ndt(u), "off": off, "v": big(v as i128)}), || json!({"r": opt(match f {
+                    "second" => z.with_second(v), "minute" => z.with_minute(v), "hour" => z.with_hour(v), "day" => z.with_day(v), "month" => z.with_month(v), "ordinal" => z.with_ordinal(v),
+                    "day0" => z.with_day0(v), "month0" => z.with_month0(v), "ordinal0" => z.with_ordinal0(v), _ => z.with_nanosecond(v) }, |q| ndt(q.naive_utc()))})));
+                n_tz += 1;
+            }
+            tz.emit(ev("tzwith", json!({"f": "year", "u": ndt(u), "off": off, "v": big(2023)}), || json!({"r": opt(z.with_year(2023), |q| ndt(q.naive_utc()))})));
+            // whole years elapsed, with the time of day as tie-break, on the wall clocks of both values
+            for d in [-366i64, -365, -1, 0, 1, 364, 365, 366, 730, 731, 1461] {
+                let bw = match w.checked_sub_signed(chrono::TimeDelta::days(d)) { Some(b) => b, None => continue };
+                for shift in [0i64, 1, -1] {
+                    let bw2 = match bw.checked_add_signed(chrono::TimeDelta::seconds(shift)) { Some(b) => b, None => continue };
+                    let bz = match fo.from_local_datetime(&bw2).single() { Some(b) => b, None => continue };
+                    tz.emit(ev("tz.years_since", json!({"a": ndt(u), "b": ndt(bz.naive_utc()), "off": off}), || json!({"r": z.years_since(bz).map(|y| y as i64).unwrap_or(-1)})));
+                    n_tz += 1;
+                }
+            }
+        } }
+    }
+    tz.finish();
     tw.finish();
-    json!({"events": tw.total, "dates": dates.len(), "month_step_events": counts[0], "with_events": counts[1], "week_events": counts[2], "nth_events": counts[5]})
+    json!({"events": tw.total + tz.total, "datetime_route_events": n_tz, "dates": dates.len(), "month_step_events": counts[0], "with_events": counts[1], "week_events": counts[2], "nth_events": counts[5]})
 }
